@@ -36,6 +36,13 @@ func (t *Writer) Emit(ev interface{}) {
 	t.mu.Unlock()
 }
 
+// Flush writes buffered events to the file (drivers that may be killed by the code under test).
+func (t *Writer) Flush() {
+	t.mu.Lock()
+	t.w.Flush()
+	t.mu.Unlock()
+}
+
 func (t *Writer) Close() error {
 	t.mu.Lock()
 	defer t.mu.Unlock()
